@@ -105,9 +105,48 @@ class LI:
 
 # ------------------------------------------------------------------ formulas over atoms
 class Atom:
-    """kinds: 'nz' (lv): some lane output non-zero; 'top' (lv, fn): fn(highest set bit position|None) ; 'cmp' (lv, kh, pred)"""
+    """kinds: 'nz' (lv): some lane output non-zero; 'top' (lv, fn): fn(highest set bit position|None) ; 'cmp' (lv, kh, pred).
+    'nz' and 'cmp' atoms over equal transducers are the same object (so that a path condition a & !a is recognised)."""
+    _pool = {}
+
+    def __new__(cls, kind, lv, arg=None, arg2=None):
+        if kind in ("nz", "cmp"):
+            if kind == "nz":     # only the zero / non-zero pattern of each lane entry matters
+                key = (kind, tuple(tuple(v != 0 for v in t) for t in lv.tab), id(lv.chain) if lv.chain is not None else 0)
+            else:
+                key = (kind, lv.off, lv.width, tuple(lv.tab), id(lv.chain) if lv.chain is not None else 0, tuple(arg) if arg is not None else None, arg2)
+            a = cls._pool.get(key)
+            if a is not None:
+                return a
+            a = object.__new__(cls)
+            cls._pool[key] = a
+            if len(cls._pool) > 200000:
+                cls._pool.clear()
+            return a
+        return object.__new__(cls)
+
     def __init__(self, kind, lv, arg=None, arg2=None):
         self.kind, self.lv, self.arg, self.arg2 = kind, lv, arg, arg2
+
+
+def f_contradictory(f):
+    """True when f is a conjunction of literals containing an atom and its negation (cheap infeasible-path pruning)"""
+    pos, neg = set(), set()
+    stack = [f]
+    while stack:
+        g = stack.pop()
+        if g[0] == "&":
+            stack.append(g[1]); stack.append(g[2])
+        elif g[0] == "a":
+            pos.add(g[1])
+        elif g[0] == "n" and g[1][0] == "a":
+            neg.add(g[1][1])
+        elif g[0] == "c":
+            if not g[1]:
+                return True
+        else:
+            return False
+    return bool(pos & neg)
 
 
 def F_const(b): return ("c", bool(b))
@@ -197,14 +236,14 @@ class Path:
 
 
 class Evaluator:
-    def __init__(self, m, allowed=None, max_paths=128, max_steps=20000):
+    def __init__(self, m, allowed=None, max_paths=2048, max_steps=200000):
         self.m = m
         self.tabs = Tables(m)
         self.allowed = allowed or [list(r) for r in LANE_VALUES]
         self.max_paths = max_paths
         self.max_steps = max_steps
         self.steps = 0
-        self.lift = {}     # callee name -> True: apply as a lane-local function (see call handling)
+        self.lift = {}     # memo of lane-local liftings
 
     # -- values: int (python int, with width tracked by instruction type) | LV | LI | BI | ("ptr", ...) --
     def norm(self, v):
@@ -268,8 +307,9 @@ class Evaluator:
                         if isinstance(cv, int):
                             work.append((tb if cv & 1 else fb, bidx, e, c, s))
                         elif isinstance(cv, BI):
-                            work.append((tb, bidx, e, F_and(c, cv.f), s))
-                            work.append((fb, bidx, e, F_and(c, F_not(cv.f)), s))
+                            for dest, cc in ((tb, F_and(c, cv.f)), (fb, F_and(c, F_not(cv.f)))):
+                                if not f_contradictory(cc):
+                                    work.append((dest, bidx, e, cc, s))
                         else:
                             raise Shape("%s: branch on an uninterpreted value at %s" % (fname, t.where()))
                 elif t.op == "switch":
@@ -311,7 +351,7 @@ class Evaluator:
             return env[o[1]]
         if k in ("g", "ce"):
             return ("gptr", o)
-        if k == "undef":
+        if k in ("undef", "poison"):
             return 0
         raise Shape("operand kind %r" % (k,))
 
@@ -336,14 +376,16 @@ class Evaluator:
             if fn is None or fn.decl or not fn.has_body:
                 raise Shape("%s calls %s, which the lane evaluator cannot summarise" % (f.name, cal or "<indirect>"))
             cargs = [self.norm(self.val(f, o, env, args, None)) for o in inst.ops[:len(fn.args)]]
-            if cal in self.lift:
-                r = self.lift_call(cal, cargs, inst)
+            r = self.lift_call(cal, fn, cargs, inst, depth)
+            if r is not None:
                 return [(self._set(env, inst, r), cond, stores)]
             res = []
             for p in self.run(cal, cargs, depth + 1):
                 if p.stores:
                     raise Shape("callee %s stores through a pointer" % cal)
-                res.append((self._set(env, inst, p.ret), F_and(cond, p.cond), stores))
+                cc = F_and(cond, p.cond)
+                if not f_contradictory(cc):
+                    res.append((self._set(env, inst, p.ret), cc, stores))
             return res
         if op == "store":
             v = self.norm(self.val(f, inst.ops[0], env, args, None))
@@ -361,9 +403,37 @@ class Evaluator:
         e[inst.id] = self.norm(v)
         return e
 
-    def lift_call(self, cal, cargs, inst):
-        """callee applied to a value confined to one lane (a digit): evaluate it for each of the possible lane values"""
-        raise Shape("lane-local lifting of %s not available" % cal)
+    def lift_call(self, cal, fn, cargs, inst, depth):
+        """lane-local lifting: a callee applied to a value confined to ONE lane (a digit, at bits 0..2 of the value) and otherwise
+        constant arguments is evaluated once per possible digit value; if every result is again a digit, the call is a lane table."""
+        lvs = [k for k, a in enumerate(cargs) if isinstance(a, LV)]
+        if len(lvs) != 1 or not all(isinstance(a, (int, LV)) for a in cargs):
+            return None
+        a = cargs[lvs[0]]
+        nzl = [j for j in range(NL) if any(a.tab[j])]
+        if len(nzl) != 1 or a.off != 3 * nzl[0] or not inst.type.startswith("i"):
+            return None
+        j0 = nzl[0]
+        key = (cal, lvs[0], tuple(x if isinstance(x, int) else None for x in cargs))
+        memo = self.lift.get(key)
+        if memo is None:
+            memo = {}
+            for v in range(8):
+                cc = list(cargs)
+                cc[lvs[0]] = v
+                try:
+                    ps = self.run(cal, cc, depth + 1)
+                except Shape:
+                    return None
+                if len(ps) != 1 or not isinstance(ps[0].ret, int) or ps[0].stores or not (0 <= ps[0].ret <= 7):
+                    return None
+                memo[v] = ps[0].ret
+            self.lift[key] = memo
+        w = _width(inst.type)
+        tab = [tuple(0 for _ in range(16)) for _ in range(NL)]
+        tab[j0] = tuple(memo[v] for v in a.tab[j0])
+        r = LV(w, a.off, tab, a.chain)
+        return r.masked(r.window())
 
     def compute(self, f, inst, env, args, stores):
         op = inst.op
@@ -745,3 +815,38 @@ def lv_equal_spec(lv, allowed, spec_lane):
             if lv.tab[j][x * 2] != e:
                 return (j, x, lv.tab[j][x * 2], e)
     return None
+
+
+def const_lv(k, width=64):
+    kl = lanes_of(k & ((1 << width) - 1))
+    return LV(width, 0, [tuple(kl[j] for _ in range(16)) for j in range(NL)])
+
+
+def diff_lv(out, lane_fn, width=64):
+    """LV that is non-zero exactly where `out` (LV at offset 0, or an int) differs from the documented lane map
+    lane_fn(j, x) -> expected lane value | None (don't care)"""
+    if isinstance(out, int):
+        out = const_lv(out, width)
+    if not isinstance(out, LV) or out.off != 0:
+        raise Shape("an index-valued result is not an unshifted index-derived value")
+    tab = []
+    for j in range(NL):
+        t = []
+        for x in range(8):
+            e = lane_fn(j, x)
+            for c in (0, 1):
+                t.append(0 if e is None else (out.tab[j][x * 2 + c] ^ e))
+        tab.append(tuple(t))
+    return LV(out.width, 0, tab, out.chain)
+
+
+def mismatch_formula(paths, getter, lane_fn):
+    """'some path is taken and the value it yields differs from the documented lane map'"""
+    f = F_const(False)
+    for p in paths:
+        v = getter(p)
+        if v is None:
+            continue
+        d = diff_lv(v, lane_fn)
+        f = F_or(f, F_and(p.cond, F_atom(Atom("nz", d))))
+    return f
